@@ -262,6 +262,28 @@ class World:
                 return k
         return "other"
 
+    def op_bad_compile(self, op: dict[str, Any]) -> str:
+        """An ill-formed text tried through one of the entry points: only a perturbation of the history (C17 is not
+        claimed): whatever the verdict, later well-formed compiles and matches must not be affected."""
+        text, how = op["text"], op["how"]
+        try:
+            if how == "validate":
+                ok, _msg = validate_pattern(text)
+            elif how == "from_pattern":
+                m, _msg = NodeMatcher.from_pattern(text)
+                ok = m is not None
+            else:
+                try:
+                    MultiPatternMatcher([("bad", text)])
+                    ok = True
+                except Exception:  # noqa: BLE001
+                    ok = False
+        except Exception as e:  # noqa: BLE001
+            self.stats.probes["bad_compile_raised:" + type(e).__name__] += 1
+            return "raised"
+        self.stats.probes["bad_compile_" + ("accepted" if ok else "rejected")] += 1
+        return "rejected" if not ok else "accepted"
+
     def op_multi(self, op: dict[str, Any]) -> str:
         try:
             mm = MultiPatternMatcher([(n, t) for n, t, _a in op["rules"]])
@@ -590,6 +612,24 @@ class Gen:
                 nm += 1
                 text = mi["text"] if r.random() < 0.5 else render(mi["ast"], ws)
                 do({"op": "compile", "how": "from_pattern", "text": text, "ast": mi["ast"], "out": f"m{nm}"})
+            elif kind == "bad":
+                # an ill-formed pattern that fails in the interpreter AFTER registering captures: unknown class,
+                # duplicate capture name, variable before capture -- re-using capture names of the generator
+                self.ncap = max(0, self.ncap - r.choice([0, 1, 2]))
+                c1, c2 = self.newcap(), self.newcap()
+                self.ncap = max(0, self.ncap - 2)
+                text = r.choice(
+                    [
+                        f"(* @a -> {c1} @b=(NoSuchClass))",
+                        f"(LeafA @a -> {c1} @b -> {c1})",
+                        f"(Pair @left -> {c1} @right=(* @x -> {c2} @y -> {c2}))",
+                        f"(Seq @items=[(LeafA) -> {c1} (NoSuchClass)])",
+                        f"(* @a=${c1} @b -> {c1})",
+                        f"(Color @a -> {c1})",
+                        "(LeafA @a=",
+                    ]
+                )
+                do({"op": "bad_compile", "text": text, "how": r.choice(["from_pattern", "validate", "multi"])})
             elif kind == "respace":
                 # a near-duplicate text: same pattern, whitespace changed INSIDE a quoted regex (significant there)
                 cands = [n for n, mi in w.matchers.items() if _ws_regexes(mi["ast"])]
@@ -689,6 +729,8 @@ def make_config(rseed: int, prop: str, tier: str, faults: bool) -> dict[str, Any
     mixes = [
         ["compile", "match", "match", "recompile", "respace", "multi", "multimatch"],
         ["compile", "respace", "match", "match"],
+        ["compile", "bad", "compile", "match", "multi", "multimatch"],
+        ["compile", "bad", "match", "recompile"],
         ["compile", "compile", "match", "multimatch", "multi"],
         ["compile", "match", "match", "match"],
         ["compile", "multi", "multimatch", "multimatch", "match"],
